@@ -5,6 +5,7 @@ import (
 	"encoding/json"
 	"fmt"
 	"os"
+	"slices"
 	"strings"
 	"sync"
 	"testing"
@@ -211,14 +212,22 @@ func runAccessCase(t *testing.T, c accCase) (coq string, problems []string, deni
 			t.Fatal("probe did not receive its runtime")
 		}
 
-		if len(c.Extra) > 0 && c.Flavour == "r" {
+		if c.Flavour == "r" {
 			pr.mu.Lock()
 			pr.ins = ins
 			r := pr.rt
 			pr.mu.Unlock()
 
-			if err := r.UpdateInputs(ins); err != nil {
+			// the declaration is passed in a buffer the controller goes on using: what it writes there afterwards is not a
+			// declaration (the access lists follow accepted UpdateInputs calls only)
+			buf := slices.Clone(ins)
+
+			if err := r.UpdateInputs(buf); err != nil {
 				t.Fatalf("UpdateInputs: %v", err)
+			}
+
+			for i := range buf {
+				buf[i] = controller.Input{Namespace: c.Op.NS, Type: c.Op.Typ, Kind: controller.InputStrong}
 			}
 
 			synctest.Wait()
@@ -377,9 +386,10 @@ func runAccessCase(t *testing.T, c accCase) (coq string, problems []string, deni
 				obs = "OaOk"
 			}
 		case "addfin":
-			cop = fmt.Sprintf("(AAddFin %s [%s])", key, coqAtom("f9"))
+			// two finalizers in one call, one of which some resources already carry (partial overlap)
+			cop = fmt.Sprintf("(AAddFin %s [%s; %s])", key, coqAtom("f9"), coqAtom("f1"))
 
-			if opErr = api.AddFinalizer(ctx, ptr, "f9"); opErr == nil {
+			if opErr = api.AddFinalizer(ctx, ptr, "f9", "f1"); opErr == nil {
 				obs = "OaOk"
 			}
 		case "remfin":
